@@ -13,6 +13,8 @@ CONSTANTS KemSet, KdfSet, AeadSet, ModeSet,
                          \* "leaf" : named leaves of assorted lengths (replay)
           Perturb,       \* set of perturbation kinds offered to the receiver ("none" = matching)
           Impost,        \* TRUE: after the honest sender, an impostor sender "i" may set up too (C08)
+          Shape,         \* "all": every value combination; "one": one combination per (suite, mode)
+          Emit,          \* TRUE: print every generated transition (and the key-derivation prologue)
           HistLen,       \* print behaviours when hist has this many steps (generation runs)
           Ordered        \* TRUE: calls come in canonical order (cuts interleavings)
 
@@ -48,8 +50,14 @@ SP(su, mo, inf, pp) ==
      pkS |-> IF mo \in AuthModes THEN KP("S1", su[1]).pk ELSE <<>>,
      rng |-> Rng("E1", su[1])]
 PairsFor(mo) == IF mo \in PskModes THEN PskPairs ELSE {<<<<>>, <<>>>>}
+OneInfo == IF Vals = "small" THEN Lit(<<97>>) ELSE Leaf("infob", 32)
+OnePair(mo) == IF mo \in PskModes
+               THEN (IF Vals = "small" THEN <<Lit(<<97, 0>>), Lit(<<0>>)>> ELSE <<Leaf("pskb", 32), Leaf("pskidc", 65)>>)
+               ELSE <<<<>>, <<>>>>
 SenderParams ==
-    UNION {{SP(su, mo, inf, pp) : su \in Suites, inf \in InfoVals, pp \in PairsFor(mo)} : mo \in ModeSet}
+    IF Shape = "one"
+    THEN {SP(su, mo, OneInfo, OnePair(mo)) : su \in Suites, mo \in ModeSet}
+    ELSE UNION {{SP(su, mo, inf, pp) : su \in Suites, inf \in InfoVals, pp \in PairsFor(mo)} : mo \in ModeSet}
 
 \* the receiver that agrees with sender parameters p
 Matching(p) ==
@@ -118,6 +126,26 @@ MC_DeliveryMenu(snt) == {[k |-> "msg", s |-> "s", i |-> i, j |-> 0, n |-> 0] : i
 MC_ExportMenu == {<<<<>>, 32>>, <<Leaf("ectx", 11), 32>>, <<Lit(<<0>>), 16>>}
 
 NoMenu(x) == {}
+NoMenu2(x, y) == {}
+
+\* single-shot calls (section 6): the same parameters as the streaming sender, one message
+ShotMsgs == {<<PtOfN(0), AadOfN(0)>>, <<PtOfN(1), AadOfN(1)>>}
+MC_ShotSMenu(cx) ==
+    IF "s" \in DOMAIN cx /\ "r" \in DOMAIN cx
+    THEN {[p |-> cx["s"].origin, pt |-> m[1], aad |-> m[2]] : m \in ShotMsgs} ELSE {}
+ShotDeliveries(i) ==
+    {[k |-> "msg", s |-> "shot", i |-> i, j |-> 0, n |-> 0],
+     [k |-> "flipct", s |-> "shot", i |-> i, j |-> 0, n |-> 3],
+     [k |-> "fliptag", s |-> "shot", i |-> i, j |-> 0, n |-> 127],
+     [k |-> "flipaad", s |-> "shot", i |-> i, j |-> 0, n |-> 0],
+     [k |-> "trunc", s |-> "shot", i |-> i, j |-> 0, n |-> 1],
+     [k |-> "trunc", s |-> "shot", i |-> i, j |-> 0, n |-> 17],
+     [k |-> "extend", s |-> "shot", i |-> i, j |-> 0, n |-> 1],
+     [k |-> "emptyaad", s |-> "shot", i |-> i, j |-> 0, n |-> 0]}
+\* opened by the receiver parameters of the live receiver "r" (matching or perturbed)
+MC_ShotRMenu(cx, sh) ==
+    IF "r" \in DOMAIN cx
+    THEN {[p |-> cx["r"].origin, d |-> d] : d \in UNION {ShotDeliveries(i) : i \in 1..Len(sh)}} ELSE {}
 
 (************************** C07 / C08 **************************************)
 SkEOf(p) == GenKeyPair(p.suite[1], p.rng).sk
@@ -152,8 +180,11 @@ PskSound ==
 
 (************************** ordering / emission *****************************)
 Rank(op) == CASE op = "init" -> 0 [] op = "setup_s" -> 1 [] op = "setup_r" -> 2 [] op = "seal" -> 3
-              [] op = "open" -> 4 [] op = "export" -> 5 [] OTHER -> 6
+              [] op = "open" -> 4 [] op = "export" -> 5 [] op = "single_shot_seal" -> 6 [] OTHER -> 7
 InOrder == ~Ordered \/ Rank(last.op) <= Rank(last'.op)
+
+ASSUME Emit => PrintT(ToJson([prologue |-> {[kem |-> k, pro |-> Prologue(k)] : k \in KemSet}]))
+EmitTr == Emit => PrintT(ToJson(TransitionRecord))
 
 PrintHist == (RecordHist /\ Len(hist) = HistLen) =>
                 PrintT(ToJson([pro |-> Prologue(ctx["s"].suite[1]), hist |-> hist]))
